@@ -13,7 +13,7 @@ theorem forall_uint8 (p : UInt8 → Bool) (h : ∀ n : Fin 256, p (UInt8.ofNat n
 
 /-! ## the regenerated tables are the ones the specification talks about -/
 
-theorem tables_ports : httpPort = b!"80" ∧ httpsPort = b!"443" ∧ unmanagedPort = b!"80" ∧ defaultPort = b!"2015" ∧
+theorem tables_ports : httpPort = b!"80" ∧ httpsPort = b!"443" ∧ qualifiesComparesConfiguredHTTPPort = true ∧ defaultPort = b!"2015" ∧
     defaultHTTPPort = b!"80" ∧ defaultHTTPSPort = b!"443" := by decide
 
 theorem tables_names : loopbackName = b!"localhost" ∧ loopbackSuffix = b!".localhost" ∧ loopbackTrimCutset = b!"[]" ∧
@@ -627,8 +627,8 @@ theorem local_iff (l : Bytes) (h1 : splitHostPort l = none) (h2 : splitHostPort 
 
 /-! ## the qualification decision -/
 
-theorem qualifies_eq_spec (c : Site) (hh : hostInScope c.host = true) (hb : bindInScope c.listen = true) :
-    qualifies c = AutoHTTPSSpec.qualifies c := by
+theorem qualifies_eq_spec (P : Ports) (c : Site) (hh : hostInScope c.host = true) (hb : bindInScope c.listen = true) :
+    qualifiesP P c = AutoHTTPSSpec.qualifies P c := by
   unfold hostInScope at hh
   unfold bindInScope at hb
   simp only [Bool.and_eq_true, beq_iff_eq, Option.isNone_iff_eq_none] at hh hb
@@ -638,8 +638,8 @@ theorem qualifies_eq_spec (c : Site) (hh : hostInScope c.host = true) (hb : bind
   have e1 := host_public_iff c.host hl' hs
   have e2 := local_iff c.host hs (by rw [hl']; exact hs)
   have e3 := local_iff c.listen hb1 hb2
-  unfold qualifies AutoHTTPSSpec.qualifies qualifiesForManagedTLS tlsAllowsManaged declaredHTTP
-  rw [← e1, ← e2, ← e3, tables_ports.2.2.1, tables_names.2.2.2.2.1]
+  unfold qualifiesP AutoHTTPSSpec.qualifies qualifiesForManagedTLSP tlsAllowsManaged declaredHTTP
+  rw [← e1, ← e2, ← e3, tables_names.2.2.2.2.1]
   cases c.onDemand <;>
   · simp only [Bool.false_eq_true, ↓reduceIte, bne]
     generalize isLoopback c.host = a1
@@ -649,7 +649,7 @@ theorem qualifies_eq_spec (c : Site) (hh : hostInScope c.host = true) (hb : bind
     generalize c.hasManager = a5
     generalize c.manual = a6
     generalize c.selfSigned = a7
-    generalize (c.port == b!"80") = a8
+    generalize (c.port == P.http) = a8
     generalize (c.email == b!"off") = a9
     generalize subjectQualifiesForPublicCert c.host = a10
     generalize (c.scheme == b!"http") = a11
